@@ -164,7 +164,10 @@ func (r *ComDoc) writeShortSector(shortSector SecID, content []byte) error {
 	}
 	bigSectorID := root.NextSector
 	for ; bigSectorIndex > 0; bigSectorIndex-- {
-		next := r.SAT[bigSectorID]
+		next, err := chainNext(r.SAT, bigSectorID)
+		if err != nil {
+			return err
+		}
 		if next < 0 {
 			break
 		}
@@ -179,6 +182,9 @@ func (r *ComDoc) writeShortSector(shortSector SecID, content []byte) error {
 		}
 		r.SAT[bigSectorID] = SecIDEndOfChain
 		r.shortStream = nil
+	}
+	if int(bigSectorID) >= len(r.SAT) {
+		return fmt.Errorf("sector %d is outside of the allocation table", bigSectorID)
 	}
 	n := r.sectorToOffset(bigSectorID) + int64(offset)
 	if _, err := r.writer.WriteAt(content, n); err != nil {
